@@ -1,4 +1,5 @@
 import PyrexVerif.Proofs.SignalsThms
+import PyrexVerif.Proofs.FnAlgebra
 set_option linter.unusedVariables false
 set_option linter.unusedSimpArgs false
 /-!
@@ -325,6 +326,21 @@ theorem C04_fn_with_times_exact (st : St) (k t : Nat) (s : Sig.Sig) (a b c d e :
     simp only [directValues]
     rw [directWindows_bufs _ _ _ _ bufs' (readF st.heap s).bufs _ hlen]
 
+/-! ## filtering a function-backed signal (mixed histories: filtered function signals + sampled ones) -/
+
+/-- `FunctionSignal.filter_frequencies` works in place on the inner filter lists only: same object,
+every `_filters[i]` grown by the new filter, every other cell untouched, and (scalar-gain filters)
+every value multiplied by the gain - so that a later `function + sampled` addition
+(`C04_add_pointwise`) adds the filtered values -/
+theorem C04_filter_in_place (st : St) (k g : Nat) (s : Sig.Sig) (a b c d e : Nat) (bi fi : List Nat) (vs : Arr)
+    (hinv : Inv st) (hs : st.objs k = some s) (hb : s.body = .fn a b c d e bi fi)
+    (hv : valuesOf st.heap s = some vs) :
+    (step st (.filter k g)).2 = .unit ∧ (step st (.filter k g)).1.objs = st.objs ∧
+    (∀ id, id ∉ fi → (step st (.filter k g)).1.heap.cell id = st.heap.cell id) ∧
+    (∀ id ∈ fi, (step st (.filter k g)).1.heap.cell id = st.heap.cell id ++ [(g : Rat)]) ∧
+    valuesOf (step st (.filter k g)).1.heap s = some (scale (gain g) vs) :=
+  filter_step_spec hinv hs hb g hv
+
 /-! ## non-vacuity: concrete histories meet the hypotheses and exhibit each case -/
 
 /-- a concrete history: two caller arrays, a padded `Signal`, an `EmptySignal`, a `FunctionSignal`,
@@ -352,3 +368,7 @@ example : (step (run St.init C04_demo) (.add (.obj 0) (.obj 5))).2 = .errTimes :
 example : (step (run St.init [.ext [0, 1], .mkEmpty 0 .voltage, .mkEmpty 0 .field]) (.add (.obj 0) (.obj 1))).2
     = .errTypes := by decide +kernel
 example : Inv (run St.init C04_demo) := run_inv Inv.init _
+-- a filtered function-backed signal (2t+1, gain 1/2) added to a sampled one
+example : ((run St.init (C04_demo ++ [.filter 2 0, .add (.obj 0) (.obj 2)])).objs 7).map
+    (valuesOf (run St.init (C04_demo ++ [.filter 2 0, .add (.obj 0) (.obj 2)])).heap) =
+    some (some [11/2, 17/2, 5/2]) := by decide +kernel
